@@ -178,6 +178,20 @@ CHECKS = {
              "One listed known finding (Nyquist line never a candidate when the band reaches the end of the grid).",
         technique="TLC model checking of Fdd.tla (Pick, Decompose) + replay through FDD_mpe / class mpe / SD_svalsvec and setups",
     ),
+    "C08": dict(
+        text="Transform.tla: TLC explores every word of <= 2 (thorough 3) transformations over Gain (1e-6, -3, 1e6), Permute, "
+             "Mix (plane rotations) and TimeUnit (1/100, 3, 100), composes gains / units / permutations exactly and checks "
+             "Homomorphism, PermIsPermutation, InverseUndoes, RefsFollowChannels, AssocOnPerms; each word is applied step by "
+             "step to seeded data (the specification's composite is checked against the step-by-step channel map), FDD (per, "
+             "cor), EFDD, FSDD, SSIcov (cov_mm, cov_R), SSIdat, pLSCF (per, cor) are run through SingleSetup on base and "
+             "transformed data and the predicted relation Fn' = k Fn, Xi' = Xi, Phi' = Normalise(M Phi) is checked on whole "
+             "pole tables (per order column) and on extracted modes, with every reported shape normalised to a unit largest "
+             "component; FDD_MS / EFDD_MS / SSIcov_MS / SSIdat_MS / pLSCF_MS on a fixed list of words.",
+        ref="DESIGN.md §4.9, §5 C08, §6",
+        note="Trusted: TLC, numpy comparison with per-family tolerances (FDD 1e-9, EFDD 1e-6, SSI 1e-7, pLSCF 1e-5, x10 "
+             "under mixing). The continuum of gains / units is explored at catalogue points; hard criteria set loose.",
+        technique="TLC model checking of Transform.tla + metamorphic replay of every word through all algorithm classes",
+    ),
     "C09": dict(
         text="Poles.tla, action HardCriteria: TLC enumerates unfiltered pole tables over a classified cell alphabet "
              "(conjugate present/absent, damping <=0 / ok / >= max, catalogue shapes on either side of the MPC / MPD "
